@@ -211,16 +211,18 @@ def is_list_config_type(klass):
 def _wrapture(orig):
     """
     Returns a new method that wraps orig (the original method) with
-    something that first calls on_modify from the
-    instance. _ListWrapper uses this to wrap all methods that modify
+    something that also calls on_modify from the instance (once the
+    original method has succeeded; a failed operation modifies
+    nothing). _ListWrapper uses this to wrap all methods that modify
     the list.
     """
 
 #    @functools.wraps(orig)
     def foo(*args):
         obj = args[0]
+        rtn = orig(*args)
         obj.on_modify()
-        return orig(*args)
+        return rtn
     return foo
 
 
